@@ -27,6 +27,11 @@ type Model struct {
 	Map   []int       `json:"state_map"`
 	Start []int       `json:"start_states,omitempty"`
 	Final []int       `json:"final_states,omitempty"`
+	// structured transition matrix (structure.go): "" plain, "constrained" with equality
+	// constraints between cells, "hierarchical" with a tree over state ranges
+	Kind        string     `json:"kind,omitempty"`
+	Constraints [][][2]int `json:"constraints,omitempty"`
+	Tree        *Tree      `json:"tree,omitempty"`
 }
 
 // Case is one replayable HMM case.
@@ -100,7 +105,12 @@ func tuples(n, k int) [][]int {
 	return out
 }
 
-func restrictions(m int) [][]int {
+// restrictions: nil (none) and, with all=true, every non-empty subset of the states;
+// otherwise the legacy selection {none,{0},{m-1},{0,1}}
+func restrictions(m int, all bool) [][]int {
+	if all {
+		return append([][]int{nil}, subsets(m)...)
+	}
 	switch m {
 	case 1:
 		return [][]int{nil, {0}}
@@ -143,7 +153,26 @@ func rowsOver(n int, alph []float64) [][]float64 {
 // emission tables: one row (over nsym symbols) per class; classes not in `used` keep a
 // fixed row of ones (they cannot influence anything)
 func tables(nclass, nsym int, used []bool, alph []float64) [][][]float64 {
+	return tablesOf(nclass, nsym, used, alph, false)
+}
+
+// noDead: rows that give probability zero to every symbol (a state that can never be
+// visited) are left out
+func tablesOf(nclass, nsym int, used []bool, alph []float64, noDead bool) [][][]float64 {
 	rows := rowsOver(nsym, alph)
+	if noDead {
+		var keep [][]float64
+		for _, r := range rows {
+			s := 0.0
+			for _, v := range r {
+				s += v
+			}
+			if s > 0 {
+				keep = append(keep, r)
+			}
+		}
+		rows = keep
+	}
 	out := [][][]float64{{}}
 	for c := 0; c < nclass; c++ {
 		var nx [][][]float64
@@ -170,7 +199,31 @@ type bounds struct {
 	emAlph         []float64 // emission table alphabet
 	nmin, nmax     int       // sequence length (nmin 0 = 1)
 	postN          int       // Posterior(state sets) up to this length
+	// structure dimension (nil = plain HMM only) and the constraint alphabet of the
+	// constrained kind ("pairs" | "partitions")
+	kinds   []string
+	consHow string
+	// allRestr: start and final restriction each range over none and ALL non-empty subsets;
+	// restrUnion: not the full product of the two but (any start, no final), (no start, any
+	// final) and (start = final)
+	allRestr, restrUnion bool
+	// noStart: no start restriction at all (the final restriction still ranges over its set)
+	noStart bool
+	// idConstMaps: only the identity state map and the constant map (every state emits from
+	// class 0: the likelihood then only measures the total mass of the model); idMap: only
+	// the identity map
+	idConstMaps, idMap bool
+	// noDeadRows: emission tables without all-zero rows
+	noDeadRows bool
+	// piList: explicit list of initial distributions instead of all stochastic vectors over
+	// piAlph
+	piList [][]float64
+	// properTrees: hierarchical kind without the single-leaf tree (which is the plain
+	// normalisation under another constructor)
+	properTrees bool
 }
+
+var structured = []string{kindConstrained, kindHierarchical}
 
 var (
 	quarter = []float64{0, 0.25, 0.5, 0.75, 1}
@@ -182,20 +235,73 @@ var (
 
 func mkModels(m int, b bounds, f func(md Model)) {
 	pis := stoch(m, b.piAlph)
+	if b.piList != nil {
+		pis = b.piList
+	}
 	rows := stoch(m, b.trAlph)
 	trs := tuples(m, len(rows))
 	maps := tuples(m, m)
-	rs := restrictions(m)
-	for _, st := range rs {
-		for _, fi := range rs {
-			for _, mp := range maps {
-				for _, pi := range pis {
-					for _, ti := range trs {
-						tr := make([][]float64, m)
-						for i := range tr {
-							tr[i] = rows[ti[i]]
+	if b.idConstMaps || b.idMap {
+		id := make([]int, m)
+		for i := range id {
+			id[i] = i
+		}
+		maps = [][]int{id}
+		if m > 1 && !b.idMap {
+			maps = append(maps, make([]int, m))
+		}
+	}
+	rs := restrictions(m, b.allRestr)
+	kinds := b.kinds
+	if kinds == nil {
+		kinds = []string{kindPlain}
+	}
+	how := b.consHow
+	if how == "" {
+		how = "pairs"
+	}
+	sameSet := func(a, b []int) bool {
+		if (a == nil) != (b == nil) || len(a) != len(b) {
+			return false
+		}
+		for i := range a {
+			if a[i] != b[i] {
+				return false
+			}
+		}
+		return true
+	}
+	for _, sx := range structures(m, kinds, how) {
+		if b.properTrees && sx.tree != nil && len(sx.tree.Children) == 0 {
+			continue
+		}
+		md0 := Model{M: m, Kind: sx.kind, Constraints: sx.constraints, Tree: sx.tree}
+		groups := md0.tieGroups()
+		for _, st := range rs {
+			for _, fi := range rs {
+				if b.restrUnion && st != nil && fi != nil && !sameSet(st, fi) {
+					continue
+				}
+				if b.noStart && st != nil {
+					continue
+				}
+				for _, mp := range maps {
+					for _, pi := range pis {
+						for _, ti := range trs {
+							tr := make([][]float64, m)
+							for i := range tr {
+								tr[i] = rows[ti[i]]
+							}
+							// structured matrices are supplied normalised AND tie-consistent:
+							// then the supplied matrix is the model's matrix (fixed point of
+							// the library's normalisation) and no read-back is needed
+							if groups != nil && !tieConsistent(tr, groups) {
+								continue
+							}
+							md := md0
+							md.Pi, md.Tr, md.Map, md.Start, md.Final = pi, tr, mp, st, fi
+							f(md)
 						}
-						f(Model{M: m, Pi: pi, Tr: tr, Map: mp, Start: st, Final: fi})
 					}
 				}
 			}
@@ -251,22 +357,33 @@ func (r *runner) sweepGeneric(m int, b bounds, elem string, pad int) {
 		if !c.Mine(r.idx) {
 			return
 		}
+		ks := kindSuffix(md.Kind)
 		sm := semantics(md)
 		if !sm.ok {
-			c.Count("generic_models_inadmissible:"+sm.why, 1)
+			c.Count("generic"+ks+"_models_inadmissible:"+sm.why, 1)
 			c.Outcome("inadmissible:" + sm.why)
-			return
+			if !sm.modelOnly {
+				return
+			}
 		}
-		c.Count("generic_models", 1)
+		c.Count("generic"+ks+"_models", 1)
+		cs0 := Case{Route: "generic", Family: "table", Elem: elem, Model: md}
 		lib, err := buildGeneric(md, elem)
 		if err != nil {
-			cs := Case{Route: "generic", Family: "table", Elem: elem, Model: md}
-			c.Violate(hkey("generic.NewHmm", md, "construct", "error"), "admissible model rejected: "+err.Error(), rank(md, 0, r.idx), AnyCase{Hmm: &cs})
+			c.Violate(hkey("generic.NewHmm"+ks, md, "construct", "error"), "admissible model rejected: "+err.Error()+structNote(md), rank(md, 0, r.idx), AnyCase{Hmm: &cs0})
+			return
+		}
+		c.Count("model_level_checks", 1)
+		reportDefects(c, lib, &cs0, rank(md, 0, r.idx))
+		if md.Kind != kindPlain {
+			c.Outcome(fmt.Sprintf("model%s:m=%d,final=%v,ties=%v,defects=%d", ks, m, md.Final != nil, len(md.tieGroups()) > 0, len(lib.defects)))
+		}
+		if !sm.ok || lib.fatal() {
 			return
 		}
 		snap := lib.snapshot()
 		nc, used := usedClasses(md.Map)
-		for _, tb := range tables(nc, 2, used, b.emAlph) {
+		for _, tb := range tablesOf(nc, 2, used, b.emAlph, b.noDeadRows) {
 			for _, sq := range seqs {
 				cs := Case{Route: "generic", Family: "table", Elem: elem, Model: md, Table: tb, Seq: sq, Pad: pad}
 				c.Guard("generic", rank(md, len(sq), r.idx), AnyCase{Hmm: &cs})
@@ -274,8 +391,7 @@ func (r *runner) sweepGeneric(m int, b bounds, elem string, pad int) {
 			}
 		}
 		if lib.snapshot() != snap {
-			cs := Case{Route: "generic", Family: "table", Elem: elem, Model: md}
-			c.Violate(hkey("generic.Hmm", md, "model", "mutated-by-query"), "model parameters changed by read-only queries: "+snap+" -> "+lib.snapshot(), rank(md, 0, r.idx), AnyCase{Hmm: &cs})
+			c.Violate(hkey("generic.Hmm"+ks, md, "model", "mutated-by-query"), "model parameters changed by read-only queries: "+snap+" -> "+lib.snapshot(), rank(md, 0, r.idx), AnyCase{Hmm: &cs0})
 		}
 	})
 }
@@ -289,19 +405,29 @@ func (r *runner) sweepE2E(route, family string, m int, b bounds, params func(ncl
 		if !c.Mine(r.idx) {
 			return
 		}
+		ks := kindSuffix(md.Kind)
 		sm := semantics(md)
 		if !sm.ok {
 			c.Outcome("inadmissible:" + sm.why)
-			return
+			if !sm.modelOnly {
+				return
+			}
 		}
-		c.Count(route+"_"+family+"_models", 1)
+		c.Count(route+ks+"_"+family+"_models", 1)
 		nc, used := usedClasses(md.Map)
-		for _, tb := range params(nc, used) {
+		for ti, tb := range params(nc, used) {
 			cs0 := Case{Route: route, Family: family, Elem: "float64", Model: md, Table: tb}
 			lib, err := buildE2E(&cs0)
 			if err != nil {
-				c.Violate(hkey(route+".NewHmm["+family+"]", md, "construct", "error"), "admissible model rejected: "+err.Error(), rank(md, 0, r.idx), AnyCase{Hmm: &cs0})
+				c.Violate(hkey(route+".NewHmm"+ks+"["+family+"]", md, "construct", "error"), "admissible model rejected: "+err.Error()+structNote(md), rank(md, 0, r.idx), AnyCase{Hmm: &cs0})
 				continue
+			}
+			if ti == 0 {
+				c.Count("model_level_checks", 1)
+			}
+			reportDefects(c, lib, &cs0, rank(md, 0, r.idx))
+			if !sm.ok || lib.fatal() {
+				break
 			}
 			for _, sq := range seqs {
 				cs := cs0
@@ -402,6 +528,28 @@ func run(c *vf.Ctx) {
 		r.sweepGeneric(2, bounds{piAlph: binary, trAlph: half, emAlph: []float64{1, 0.5, 0}, nmax: 3, postN: 2}, "real64", 1)
 	}
 
+	// ---- constrained and hierarchical HMMs (structured transition matrices), generic route
+	onlyC, onlyH := []string{kindConstrained}, []string{kindHierarchical}
+	lowQuarter := []float64{0, 0.25, 0.5} // m=3: rows (1/2,1/2,0) and (1/2,1/4,1/4) in every order
+	// m=3: rows (1/2,1/4,1/4) in every order. Only with unequal non-zero entries does the
+	// tied normalisation of a final-restricted matrix differ from row-wise renormalisation
+	// (over {0,1/2} the two coincide on every admissible model)
+	fullSupport := []float64{0.25, 0.5}
+	if thorough {
+		r.sweepGeneric(1, bounds{piAlph: quarter, trAlph: quarter, emAlph: []float64{1, 0.5, 0}, nmax: 4, postN: 3, kinds: structured, allRestr: true}, "float64", 0)
+		r.sweepGeneric(2, bounds{piAlph: quarter, trAlph: quarter, emAlph: []float64{1, 0.5, 0}, nmax: 4, postN: 2, kinds: structured, consHow: "partitions", allRestr: true}, "float64", 0)
+		r.sweepGeneric(2, bounds{piAlph: half, trAlph: half, emAlph: []float64{1, 0.5}, nmax: 5, postN: 3, kinds: structured, consHow: "partitions", allRestr: true, idConstMaps: true}, "real64", 1)
+		r.sweepGeneric(3, bounds{piAlph: half, trAlph: half, emAlph: []float64{1, 0}, nmax: 4, postN: 0, kinds: structured, allRestr: true, idConstMaps: true, noDeadRows: true}, "float64", 0)
+		r.sweepGeneric(3, bounds{piList: [][]float64{{0.5, 0.25, 0.25}, {0, 0.5, 0.5}}, trAlph: fullSupport, emAlph: []float64{1, 0.5, 0}, nmax: 4, postN: 2, kinds: onlyC, allRestr: true, idMap: true, noDeadRows: true}, "float64", 1)
+		r.sweepGeneric(3, bounds{piList: [][]float64{{0.5, 0.25, 0.25}, {0, 0.5, 0.5}}, trAlph: lowQuarter, emAlph: []float64{1, 0}, nmax: 4, postN: 2, kinds: onlyH, allRestr: true, idMap: true, noDeadRows: true}, "float64", 1)
+	} else {
+		r.sweepGeneric(1, bounds{piAlph: quarter, trAlph: quarter, emAlph: []float64{1, 0.5, 0}, nmax: 4, postN: 3, kinds: structured, allRestr: true}, "float64", 0)
+		r.sweepGeneric(2, bounds{piAlph: half, trAlph: quarter, emAlph: []float64{1, 0}, nmax: 4, postN: 2, kinds: structured, consHow: "partitions", allRestr: true, idConstMaps: true}, "float64", 0)
+		r.sweepGeneric(3, bounds{piList: [][]float64{{0.5, 0.25, 0.25}}, trAlph: []float64{0, 0.5}, emAlph: []float64{1, 0}, nmax: 3, postN: 0, kinds: onlyC, allRestr: true, restrUnion: true, idMap: true, noDeadRows: true}, "float64", 1)
+		r.sweepGeneric(3, bounds{piList: [][]float64{{0.5, 0.25, 0.25}}, trAlph: fullSupport, emAlph: []float64{1, 0}, nmax: 4, postN: 0, kinds: onlyC, allRestr: true, noStart: true, idMap: true, noDeadRows: true}, "float64", 0)
+		r.sweepGeneric(3, bounds{piList: [][]float64{{0.5, 0.25, 0.25}}, trAlph: lowQuarter, emAlph: []float64{1, 0}, nmax: 4, postN: 0, kinds: onlyH, properTrees: true, allRestr: true, restrUnion: true, idMap: true, noDeadRows: true}, "float64", 1)
+	}
+
 	// ---- end to end: vectorDistribution.Hmm / matrixDistribution.Hmm and classifiers
 	catTables := func(alph []float64) func(int, []bool) [][][]float64 {
 		return func(nc int, used []bool) [][][]float64 { return tables(nc, 2, used, alph) }
@@ -443,6 +591,43 @@ func run(c *vf.Ctx) {
 		r.sweepE2E("matrix", "iid-categorical", 2, bounds{piAlph: half, trAlph: half, nmax: 2, postN: 2}, catTables([]float64{1, 0.5, 0}), 4)
 	}
 
+	// ---- end to end, constrained and hierarchical: vectorDistribution / matrixDistribution
+	// NewConstrainedHmm and NewHierarchicalHmm
+	fixedTables := func(rows [][]float64) func(int, []bool) [][][]float64 {
+		// table t: class c gets row (c+t) mod len(rows)
+		return func(nc int, used []bool) [][][]float64 {
+			var out [][][]float64
+			for t := range rows {
+				tb := make([][]float64, nc)
+				for cl := range tb {
+					tb[cl] = rows[(cl+t)%len(rows)]
+				}
+				out = append(out, tb)
+			}
+			return out
+		}
+	}
+	if thorough {
+		r.sweepE2E("vector", "categorical", 2, bounds{piAlph: half, trAlph: quarter, nmax: 4, postN: 2, kinds: structured, consHow: "partitions", allRestr: true, idConstMaps: true}, catTables([]float64{1, 0.5, 0}), 2)
+		r.sweepE2E("vector", "categorical", 3, bounds{piList: [][]float64{{0.5, 0.25, 0.25}}, trAlph: []float64{0, 0.5}, nmax: 4, postN: 0, kinds: onlyC, allRestr: true, idMap: true}, fixedTables([][]float64{{1, 0.5}, {0.5, 1}, {1, 0}, {0, 1}}), 2)
+		r.sweepE2E("vector", "categorical", 3, bounds{piList: [][]float64{{0.5, 0.25, 0.25}}, trAlph: fullSupport, nmax: 4, postN: 0, kinds: onlyC, allRestr: true, idMap: true}, fixedTables([][]float64{{1, 0.5}, {0.5, 1}, {1, 0}, {0, 1}}), 2)
+		r.sweepE2E("vector", "categorical", 3, bounds{piList: [][]float64{{0.5, 0.25, 0.25}}, trAlph: lowQuarter, nmax: 4, postN: 0, kinds: onlyH, allRestr: true, idMap: true}, fixedTables([][]float64{{1, 0.5}, {0.5, 1}, {1, 0}, {0, 1}}), 2)
+		r.sweepE2E("vector", "poisson", 2, bounds{piAlph: half, trAlph: half, nmax: 4, postN: 0, kinds: structured, allRestr: true, idMap: true}, poisson, 3)
+		r.sweepE2E("matrix", "iid-categorical", 2, bounds{piAlph: half, trAlph: half, nmax: 3, postN: 2, kinds: structured, consHow: "partitions", allRestr: true, idMap: true}, fixedTables([][]float64{{1, 0.5}, {0.5, 1}, {1, 0}, {0, 1}}), 4)
+		r.sweepE2E("matrix", "iid-categorical", 3, bounds{piList: [][]float64{{0.5, 0.25, 0.25}}, trAlph: fullSupport, nmax: 2, postN: 0, kinds: onlyC, allRestr: true, idMap: true}, fixedTables([][]float64{{1, 0.5}, {0, 1}}), 4)
+		r.sweepE2E("matrix", "iid-categorical", 3, bounds{piList: [][]float64{{0.5, 0.25, 0.25}}, trAlph: lowQuarter, nmax: 2, postN: 0, kinds: onlyH, properTrees: true, allRestr: true, idMap: true}, fixedTables([][]float64{{1, 0.5}, {0, 1}}), 4)
+	} else {
+		r.sweepE2E("vector", "categorical", 2, bounds{piAlph: half, trAlph: half, nmax: 4, postN: 2, kinds: structured, allRestr: true, idConstMaps: true}, catTables([]float64{1, 0}), 2)
+		r.sweepE2E("matrix", "iid-categorical", 2, bounds{piList: [][]float64{{0.5, 0.5}}, trAlph: half, nmax: 3, postN: 0, kinds: structured, allRestr: true, restrUnion: true, idMap: true}, fixedTables([][]float64{{1, 0.5}, {0.5, 1}, {1, 0}, {0, 1}}), 4)
+		// m=3: only here a tied last transition differs from a row-wise renormalised one
+		pi3 := [][]float64{{0.5, 0.25, 0.25}}
+		two := fixedTables([][]float64{{1, 0.5}, {0, 1}})
+		r.sweepE2E("vector", "categorical", 3, bounds{piList: pi3, trAlph: fullSupport, nmax: 3, postN: 0, kinds: onlyC, allRestr: true, noStart: true, idMap: true}, two, 2)
+		r.sweepE2E("vector", "categorical", 3, bounds{piList: pi3, trAlph: lowQuarter, nmax: 3, postN: 0, kinds: onlyH, properTrees: true, allRestr: true, restrUnion: true, idMap: true}, two, 2)
+		r.sweepE2E("matrix", "iid-categorical", 3, bounds{piList: pi3, trAlph: fullSupport, nmax: 2, postN: 0, kinds: onlyC, allRestr: true, noStart: true, idMap: true}, two, 4)
+		r.sweepE2E("matrix", "iid-categorical", 3, bounds{piList: pi3, trAlph: lowQuarter, nmax: 2, postN: 0, kinds: onlyH, properTrees: true, allRestr: true, restrUnion: true, idMap: true}, two, 4)
+	}
+
 	// ---- data sets of 1-2 sequences: E-step statistics of one Baum-Welch iteration
 	if thorough {
 		r.sweepBW(1, bounds{piAlph: half, trAlph: half, emAlph: []float64{1, 0.5, 0}, nmax: 3}, 2)
@@ -469,26 +654,46 @@ func replay(c *vf.Ctx, raw json.RawMessage) {
 	case ac.Hmm != nil:
 		cs := ac.Hmm
 		sm := semantics(cs.Model)
-		if !sm.ok {
+		if !sm.ok && !sm.modelOnly {
 			return
 		}
+		ks := kindSuffix(cs.Model.Kind)
 		var lib *libHmm
 		var err error
 		if cs.Route == "generic" {
 			lib, err = buildGeneric(cs.Model, cs.Elem)
 		} else {
+			if cs.Table == nil {
+				// model-level artefact of an end-to-end route: any emission parameters do
+				nc, _ := usedClasses(cs.Model.Map)
+				for i := 0; i < nc; i++ {
+					switch cs.Family {
+					case "poisson":
+						cs.Table = append(cs.Table, []float64{1})
+					case "normal":
+						cs.Table = append(cs.Table, []float64{0, 1})
+					default:
+						cs.Table = append(cs.Table, []float64{0.5, 0.5})
+					}
+				}
+			}
 			lib, err = buildE2E(cs)
 		}
 		if err != nil {
-			routine := "generic.NewHmm"
+			routine := "generic.NewHmm" + ks
 			if cs.Route != "generic" {
-				routine = cs.Route + ".NewHmm[" + cs.Family + "]"
+				routine = cs.Route + ".NewHmm" + ks + "[" + cs.Family + "]"
 			}
 			c.Violate(hkey(routine, cs.Model, "construct", "error"), "admissible model rejected: "+err.Error(), 0, ac)
 			return
 		}
 		if cs.Seq == nil {
-			// model-level artefact (mutation by queries): re-run every table/sequence of the quick bound
+			// model-level artefact: the observations made while configuring, then (generic
+			// route) mutation by queries: re-run every table/sequence of the quick bound
+			reportDefects(c, lib, cs, 0)
+			if !sm.ok || lib.fatal() || cs.Route != "generic" {
+				return
+			}
 			snap := lib.snapshot()
 			nc, used := usedClasses(cs.Model.Map)
 			for _, tb := range tables(nc, 2, used, []float64{1, 0.5, 0}) {
@@ -499,8 +704,11 @@ func replay(c *vf.Ctx, raw json.RawMessage) {
 				}
 			}
 			if lib.snapshot() != snap {
-				c.Violate(hkey("generic.Hmm", cs.Model, "model", "mutated-by-query"), "model parameters changed by read-only queries", 0, ac)
+				c.Violate(hkey("generic.Hmm"+ks, cs.Model, "model", "mutated-by-query"), "model parameters changed by read-only queries", 0, ac)
 			}
+			return
+		}
+		if !sm.ok || lib.fatal() {
 			return
 		}
 		runHmmCase(c, cs, lib, sm, 3, 0)
@@ -518,9 +726,13 @@ func main() {
 		ID:    "C15",
 		Level: "exploration",
 		Rule: "exhaustive product: HMMs with m in {1,2,3} states, pi and every transition row from all stochastic vectors over a dyadic alphabet (zeros included), all m^m state->emission-class maps, start and final restriction each in {none,{0},{m-1},{0,1}}, all emission tables over a small alphabet (zero emissions included), all observation sequences up to the length bound (generic route: one representative per symbol relabelling), all sequences of non-empty state subsets for Posterior; mixtures: all weight vectors, component likelihood tables and component subsets. " +
+			"Structured transition matrices: constrained HMMs (no constraint and every single equality constraint between two cells of the matrix; for m=2 every partition of the four cells into tie groups) and hierarchical HMMs (every tree over contiguous state ranges without unary nodes), built through generic.NewChmmTransitionMatrix / NewHhmmTransitionMatrix + NewHmm and end to end through vectorDistribution / matrixDistribution NewConstrainedHmm / NewHierarchicalHmm; their matrices range over ALL stochastic matrices of the row alphabet that satisfy the ties, start and final restriction each over none and every non-empty subset of the states (m=3 quick: (any start, no final), (no start, any final), (start = final); thorough: full product), sequences of length 1..4, identity and constant state map. On every model the configuration calls are observed too (model_level_checks): base transition matrix and pi read back after construction equal the supplied ones; SetStartStates/SetFinalStates leave the base transition matrix (public field and GetParameters) bitwise unchanged, SetFinalStates leaves pi unchanged; the last-transition matrix has no NaN, no mass on non-final states and unit row sums. " +
 			"Every case runs the real library and is compared with a brute-force sum over all m^n hidden paths. A case is counted non-trivial when the data has positive probability and at least two hidden paths have positive probability (so sums/maxima really range over several paths); cases are distinct by construction of the product",
 		Assume: []string{
 			"model semantics as defined by the library's documented construction: pi restricted to the start states and renormalised; the LAST transition (only) uses the transition matrix restricted to the final-state columns with rows renormalised; models where the start restriction removes all mass of pi, or where a row has no mass on the final states (the library then substitutes a self-loop), are skipped as inadmissible and counted",
+			"the reference is computed from the parameters the CALLER supplied (pi, transition matrix, constraints / tree, start and final sets) and never from values read back from the constructed or configured object; the readings of the model-level checks are assertions on the object only",
+			"constrained and hierarchical HMMs are supplied normalised and tie-consistent (then the supplied matrix is the fixed point of the library's normalisation, i.e. the model's matrix); their last transition is the library's definition of Normalize for these matrix types - the maximiser of sum xi log theta over tie-consistent matrices with unit row sums - applied to the supplied matrix with the non-final columns set to zero, solved by independent code (iterative scaling, KKT residual <= 1e-13). Models in which a tie group has mass on final AND non-final columns (tie and restriction contradict each other) have no defined last transition: only the model-level checks run on them; models whose tied restriction cannot be normalised are skipped; both are counted as inadmissible",
+			"constrained HMMs: tolerance 1e-6 instead of 1e-10, because the library defines their normalisation through a Newton iteration that stops at a residual of 1e-8",
 			"observations with zero total probability: only LogPdf=-Inf is demanded; PosteriorMarginals may fail with an error, Viterbi may return any path",
 			"Viterbi: any maximiser is accepted",
 			"state-set sequences are given as duplicate-free ascending lists",
